@@ -49,7 +49,7 @@ func (s *vhTabState) vhCandidate() *enode.Node {
 // changes only to a higher sequence number (any change when inbound) and an endpoint change clears
 // its verified status and puts it on the fast list.
 //
-//verif:harness C07.add_node unwind=80 timeout=60 noassumecheck
+//verif:harness C07.add_node unwind=80 timeout=60 wall=900/7200 noassumecheck
 //verif:use tablestep
 //verif:param SHAPES=6/7 BUCKETS=2/4
 func vhC07AddNode() {
@@ -101,7 +101,7 @@ func vhC07AddNode() {
 // consecutive fruitless queries while the bucket has at least four entries, and is then succeeded
 // by a (randomly chosen) replacement if one exists.
 //
-//verif:harness C07.delete_and_track unwind=80 timeout=60 noassumecheck
+//verif:harness C07.delete_and_track unwind=80 timeout=60 wall=900/7200 noassumecheck
 //verif:use tablestep
 //verif:param SHAPES=6/7 BUCKETS=2/4
 func vhC07DeleteAndTrack() {
@@ -157,7 +157,7 @@ func vhC07DeleteAndTrack() {
 // only when it reaches zero (then a replacement succeeds it); a passed check adds one credit, marks
 // the entry verified and moves it to the slow list unless its endpoint changed.
 //
-//verif:harness C07.revalidation unwind=80 timeout=60 noassumecheck
+//verif:harness C07.revalidation unwind=80 timeout=60 wall=900/7200 noassumecheck
 //verif:use tablestep
 //verif:param SHAPES=6/7 BUCKETS=2/4
 func vhC07Revalidation() {
@@ -224,17 +224,17 @@ func init() {
 	vsRegister("C18.revalidation_step", vhC18RevalidationStep)
 }
 
-//verif:harness C18.add_step unwind=80 timeout=60 noassumecheck
+//verif:harness C18.add_step unwind=80 timeout=60 wall=900/7200 noassumecheck
 //verif:use tablestep
 //verif:param SHAPES=6/7 BUCKETS=2/4
 func vhC18AddStep() { vhC07AddNode() }
 
-//verif:harness C18.delete_and_track_step unwind=80 timeout=60 noassumecheck
+//verif:harness C18.delete_and_track_step unwind=80 timeout=60 wall=900/7200 noassumecheck
 //verif:use tablestep
 //verif:param SHAPES=6/7 BUCKETS=2/4
 func vhC18DeleteAndTrackStep() { vhC07DeleteAndTrack() }
 
-//verif:harness C18.revalidation_step unwind=80 timeout=60 noassumecheck
+//verif:harness C18.revalidation_step unwind=80 timeout=60 wall=900/7200 noassumecheck
 //verif:use tablestep
 //verif:param SHAPES=6/7 BUCKETS=2/4
 func vhC18RevalidationStep() { vhC07Revalidation() }
